@@ -56,6 +56,12 @@ def cases(tier, seed):
             if in_fragment(m):
                 for t in ksets:
                     yield ('SK', cm.with_ctc(m, t))
+    from . import families
+    for m in families.models():
+        if in_fragment(m):
+            yield ('S', m)
+    for t in families.deep_trees():
+        yield ('SK', cm.on_carrier([t]))
     carriers1 = [m for m in sp.structures_upto(3) if in_fragment(m)]
     carriers2 = [m for m in sp.structures_upto(2 if tier == 'quick' else 3) if in_fragment(m)]
     seen = set()
